@@ -522,22 +522,34 @@ func TestVerif_C08_EntryPoints(t *testing.T) {
 
 // Entry points, library internals only: everything SignHashed / GenerateKey / DerivePublic execute BELOW the sm2 package's own glue
 // (scalar multiplication, affine conversion, scalar-field decoding and inversion, comparisons) must be trace-identical for all secrets.
-func TestVerif_C08_EntryInternals(t *testing.T) {
+func TestVerif_C08_EntryInternals(t *testing.T) { verifC08Entries(t, false) }
+
+// (A variant of this sub-check that also judged the events of sm2/sm2.go itself was tried and withdrawn: the unchanged glue pads and
+// slices by the byte lengths of math/big values derived from d and k — ensure32Bytes, the 32-len(b) bounds in SignHashed — so its own
+// index and block events already vary with the secrets. That is the documented, unjudged math/big part of the signer; see DESIGN 8.4.)
+func verifC08Entries(t *testing.T, withGlue bool) {
 	rec := stats.Get("C08", "entry-internals")
-	rec.Rule("instrumented build; events of sites in sm2/sm2.go itself (the math/big glue that forms r and s, not judged) are excluded, everything below it is traced: rapid draws a valid private key (all classes incl. short and carry-chain encodings are padded to 32 bytes for DerivePublic/GenerateKey), a digest and a nonce that is accepted at the first draw; SignHashed(k,d,e), GenerateKey(stream=d) and DerivePublic(d) are executed, each optionally preceded by an untraced call of the same entry point with the SAME key or with another key, and grouped by entry point (SignHashed additionally by the byte length of r+k, a decision of the unjudged glue that determines whether the comparison routine is called at all). Oracle: block-sequence hash+count and (site,index)-sequence hash+count are identical within a group for all (d, e, k). Non-trivial: every case after the first of its group; distinct by (entry, d, e, k).")
+	if withGlue {
+		rec = stats.Get("C08", "entry-glue")
+		rec.Rule("as entry-internals, but the block/branch/index events of sm2/sm2.go itself are part of the trace (math/big's inside is not instrumented and not judged); keys additionally from the class whose DERIVED secret (1+d)^-1 mod n is short (below 2^192, 2^128, 2^64: d = v^-1 - 1), where code that walks the words of a big.Int takes fewer steps. Oracle and grouping as entry-internals. Non-trivial: every case after the first of its group; distinct by (entry, d, e, k).")
+	} else {
+		rec.Rule("instrumented build; events of sites in sm2/sm2.go itself (the math/big glue that forms r and s, not judged) are excluded, everything below it is traced: rapid draws a valid private key (all classes incl. short and carry-chain encodings are padded to 32 bytes for DerivePublic/GenerateKey), a digest and a nonce that is accepted at the first draw; SignHashed(k,d,e), GenerateKey(stream=d) and DerivePublic(d) are executed, each optionally preceded by an untraced call of the same entry point with the SAME key or with another key, and grouped by entry point (SignHashed additionally by the byte length of r+k, a decision of the unjudged glue that determines whether the comparison routine is called at all). Oracle: block-sequence hash+count and (site,index)-sequence hash+count are identical within a group for all (d, e, k). Non-trivial: every case after the first of its group; distinct by (entry, d, e, k).")
+	}
 	t.Cleanup(stats.FlushAll)
 	if !c08LoadSites(t) {
 		rec.Skipped("ctrace_sites.json not found: nothing judged")
 		t.Skip("no instrumentation")
 	}
-	glue := map[int]bool{}
-	for id, s := range c08Sites {
-		if s.File == "sm2/sm2.go" {
-			glue[id] = true
+	if !withGlue {
+		glue := map[int]bool{}
+		for id, s := range c08Sites {
+			if s.File == "sm2/sm2.go" {
+				glue[id] = true
+			}
 		}
+		ctrace.Exclude(glue)
+		defer ctrace.Exclude(nil)
 	}
-	ctrace.Exclude(glue)
-	defer ctrace.Exclude(nil)
 	rec.Note("observation (reported, not judged — the statement enumerates primitives, and SignHashed's r/s arithmetic is math/big throughout): the glue in sm2/sm2.go calls the comparison with n only when r+k is exactly 32 bytes long, and uses big.Int Add/Mul/Mod/Bytes on values derived from k and d")
 	type ref struct {
 		tr   ctrace.Trace
@@ -547,8 +559,19 @@ func TestVerif_C08_EntryInternals(t *testing.T) {
 	refs := map[string]*ref{}
 	rapid.Check(t, func(t *rapid.T) {
 		d, _, dcls := sm2gen.PrivKey(t, "d")
-		d32 := gen.Pad32(d)
 		r0 := gen.Rand(t, "seed")
+		if gen.Uniform(t, "short-derived", 0, 5) == 0 {
+			// keys whose DERIVED secret (1+d)^-1 mod n is short: d = v^-1 - 1 for a v of at most 191 / 127 / 63 / 31 bits
+			bits := []int{191, 127, 63, 31}[gen.Uniform(t, "derived-bits", 0, 3)]
+			v := new(big.Int).SetBytes(gen.RandBytes(r0, 32))
+			v.Rsh(v, uint(256-bits)).SetBit(v, bits-1, 1)
+			nd := new(big.Int).ModInverse(v, sm2gen.N)
+			nd.Sub(nd, big.NewInt(1)).Mod(nd, sm2gen.N)
+			if nd.Sign() > 0 && nd.Cmp(sm2gen.NM2) <= 0 {
+				d, dcls = nd, fmt.Sprintf("short-derived:%d", bits)
+			}
+		}
+		d32 := gen.Pad32(d)
 		e, _ := gen.Bytes32(t, "e")
 		k, kcls := gen.Bytes32(t, "k")
 		kv := new(big.Int).SetBytes(k)
